@@ -124,7 +124,7 @@ inductive Cmd
   | stop (name : Bytes) (msg : Bytes)
   | resume (name : Bytes)
   | remove (name : Bytes)
-  | restart
+  | restart (goodCerts : List (Bytes × Bytes))   -- the certificate/key path pairs that load in the new process
 deriving Repr
 
 /-! ### targets -/
@@ -256,32 +256,34 @@ def restorePause (p : PauseSt × Bytes × Int) : Option Pause :=
   | .paused => some (pauseCtl p0 p.2.2)
   | .stopped => setStateCtl p0 .stopped p.2.1
 
-/-- `Service.UnmarshalJSON` -/
-def restoreSvc (sn : SvcSnap) : Except Res Svc :=
+/-- `Service.UnmarshalJSON`; `good` = the certificate/key path pairs that load (the persisted options are
+    initialised again, so a certificate that was never loaded before — a sub-path service that inherited
+    "TLS on" after it was deployed without TLS — is loaded now) -/
+def restoreSvc (good : List (Bytes × Bytes)) (sn : SvcSnap) : Except Res Svc :=
   match restorePause sn.pause with
   | none => .error .panic
   | some p =>
     if !sn.active.all validTarget then .error .badTarget else
     let ro := sn.rollout.filter (fun ts => !ts.isEmpty)
     if !(ro.getD []).all validTarget then .error .badTarget else
-    match initService sn.opts ⟨true, true, true⟩ with
+    match initService sn.opts ⟨good.contains (sn.opts.tlsCertPath, sn.opts.tlsKeyPath), true, true⟩ with
     | .error e => .error e
     | .ok cm =>
       .ok { name := sn.name, opts := sn.opts, topts := sn.topts, active := sn.active, rollout := ro,
             pause := p, split := sn.split, certMgr := cm }
 
-def restoreAll : List Svc → List SvcSnap → Option (List Svc)
+def restoreAll (good : List (Bytes × Bytes)) : List Svc → List SvcSnap → Option (List Svc)
   | svcs, [] => some svcs
   | svcs, sn :: rest =>
-    match restoreSvc sn with
+    match restoreSvc good sn with
     | .error _ => none
-    | .ok v => restoreAll (setSvc svcs v) rest
+    | .ok v => restoreAll good (setSvc svcs v) rest
 
 /-- `RestoreLastSavedState` in a fresh process: any decode error leaves the router empty -/
-def restoreCore (file : Option (List SvcSnap)) : Core :=
+def restoreCore (good : List (Bytes × Bytes)) (file : Option (List SvcSnap)) : Core :=
   match file with
   | none => ⟨[], file⟩
-  | some sns => ⟨(restoreAll [] sns).getD [], file⟩
+  | some sns => ⟨(restoreAll good [] sns).getD [], file⟩
 
 /-- `findOrCreateService`: a copy of the installed object (sharing load balancers, pause and
     rollout controllers) with the new options, or a fresh service -/
@@ -329,8 +331,8 @@ def stepCore (c : Core) : Cmd → Core × Res × List Eff
   | .remove name =>
     withSvc c name fun v =>
       (save { c with svcs := removeSvc c.svcs name }, .ok, (svcLbs v).map .stop)
-  | .restart =>
-    let c' := restoreCore c.file
+  | .restart good =>
+    let c' := restoreCore good c.file
     (c', .ok, .exit :: c'.svcs.flatMap fun v => (svcLbs v).map .start)
 
 /-- bookkeeping of probe loops and rotation indices -/
